@@ -38,6 +38,7 @@ def cases(draw):
     case = {"g": g, "cfg": cfg, "mode": mode, "thr": draw(st.sampled_from([0, 0, 0.5, 1 / 3, 1])), "cache_off": draw(st.booleans())}
     if mode == "classes":
         case["classes"] = draw(st.lists(st.sampled_from(g["classes"]), min_size=1, max_size=len(g["classes"]), unique=True))
+        case["spelling"] = draw(st.lists(st.integers(0, 2), min_size=len(case["classes"]), max_size=len(case["classes"])))
     if mode == "sm":
         n = draw(st.integers(1, 2))
         case["items"] = [{"sel": draw(c10.selector(g)), "label": {"form": "full", "name": "S%d" % i},
@@ -84,7 +85,7 @@ def check(case):
     common_kw["namespaces_dict"] = dict(c10.NSD)
     sel_expected = None
     if case["mode"] == "classes":
-        common_kw["target_classes"] = list(case["classes"])
+        common_kw["target_classes"] = [c10.spell(c, sp) for c, sp in zip(case["classes"], case.get("spelling") or [0] * 99)]
         full_sel = refmodel.select_by_classes(triples, inst_prop, set(case["classes"]))
     elif case["mode"] == "all":
         common_kw["all_classes_mode"] = True
